@@ -83,10 +83,15 @@ def run(ctx):
     env = dict(os.environ, MALLOC_CHECK_="3", MALLOC_PERTURB_="90")
 
     def run_batch(batch):
-        proc = subprocess.run([sys.executable, child], input="\n".join(json.dumps(j) for j in batch) + "\n",
-                              capture_output=True, text=True, env=env, timeout=1800)
+        try:
+            proc = subprocess.run([sys.executable, child], input="\n".join(json.dumps(j) for j in batch) + "\n",
+                                  capture_output=True, text=True, env=env, timeout=300)
+            prc, pout, perr = proc.returncode, proc.stdout, proc.stderr
+        except subprocess.TimeoutExpired as e:      # a step that never returns: the job that was running is the culprit
+            pout = e.stdout.decode(errors="replace") if isinstance(e.stdout, bytes) else (e.stdout or "")
+            prc, perr = -999, "the step did not return within 300 s"
         results, last = {}, None
-        for line in proc.stdout.splitlines():
+        for line in pout.splitlines():
             try:
                 r = json.loads(line)
             except ValueError:
@@ -95,7 +100,7 @@ def run(ctx):
                 last = r["start"]
             else:
                 results[r["id"]] = r
-        return proc.returncode, results, last, proc.stderr
+        return prc, results, last, perr
 
     from concurrent.futures import ThreadPoolExecutor
     batches = [jobs[i:i + 100] for i in range(0, len(jobs), 100)]
@@ -127,7 +132,7 @@ def run(ctx):
                 break
             j = next(x for x in pending if x["id"] == last)
             ctx.count((j["family"], j["kind"], j["impl"], tuple(j["keys"]), j["source"], json.dumps(j["steps"])))
-            ctx.oracle_failure("%s:%s:%s:process-died" % (j["impl"], j["kind"], j["source"]),
+            ctx.oracle_failure("%s:%s:%s:%s" % (j["impl"], j["kind"], j["source"], "did-not-terminate" if rc == -999 else "process-died"),
                                "%s%s/%s keys=%r %s steps=%r: the process died (rc=%s) %s" % (j["family"], j["kind"], j["impl"], j["keys"], j["source"], j["steps"], rc,
                                                                                         err.strip().splitlines()[-1][:100] if err.strip() else ""), {"job": j})
             pending = [x for x in pending if x["id"] > last]
